@@ -43,7 +43,7 @@ func readGposSubtable(p *parser.Parser, pos int64, meta *LookupMetaInfo) (Subtab
 	}
 
 	reader, ok := gposReaders[10*meta.LookupType+format]
-	if !ok {
+	if !ok || format > 9 {
 		return nil, &parser.InvalidFontError{
 			SubSystem: "sfnt/opentype/gtab",
 			Reason: fmt.Sprintf("unknown GPOS subtable format %d.%d",
